@@ -2338,7 +2338,9 @@ func (r *Raft) holdsEntry(index, term uint64) bool {
 	return l.Term == term
 }
 
-// reloadLastLog refreshes the cached last log index and term from the log store.
+// reloadLastLog refreshes the cached last log index and term from the log
+// store. If the store cannot produce its last entry nothing is assumed about
+// the log, and the snapshot boundary stands in as the last entry.
 func (r *Raft) reloadLastLog() error {
 	lastIdx, err := r.logs.LastIndex()
 	if err != nil {
@@ -2347,7 +2349,8 @@ func (r *Raft) reloadLastLog() error {
 	var last Log
 	if lastIdx > 0 {
 		if err := r.logs.GetLog(lastIdx, &last); err != nil {
-			return err
+			r.logger.Warn("failed to read the last log entry", "index", lastIdx, "error", err)
+			last = Log{}
 		}
 	}
 	r.setLastLog(last.Index, last.Term)
